@@ -95,11 +95,9 @@ Proof.
       now rewrite Ee, plookup_pset, E.
 Qed.
 
-Definition is_alias (o : pop) : bool := match o with RegAlias _ _ => true | _ => false end.
-
-Lemma step_consistent s o s' : consistent s -> is_alias o = false -> pstep s o = Ok s' -> consistent s'.
+Lemma step_consistent s o s' : consistent s -> pstep s o = Ok s' -> consistent s'.
 Proof.
-  intros [Hu Hc] Hna H. destruct o as [name lh e|name like|colors bib hasul]; [| discriminate |]; cbn [pstep] in H.
+  intros [Hu Hc] H. destruct o as [name lh e|name like|colors bib hasul]; cbn [pstep] in H.
   - unfold reg_entry in H.
     set (e' := PE (p_basic e) (p_mono e) (if lh then p_basic e else p_88 e) (p_256 e) (p_true e)) in *.
     destruct (on_update s name e') as [s1|] eqn:E1; [|discriminate].
@@ -113,6 +111,19 @@ Proof.
       destruct (attr_eqb name n) eqn:E.
       * now rewrite Hsame, Es.
       * rewrite Hc. destruct (plookup n (s_palette s)); [now rewrite Hsame | reflexivity].
+  - (* alias: the entry is copied and its escape is created through the signal *)
+    unfold reg_alias in H. destruct (plookup like (s_palette s)) as [e|] eqn:El; [|discriminate].
+    set (s0 := Scr (pset (s_palette s) name e) (s_escape s) (s_colors s) (s_bib s) (s_bbb s) (s_hasul s)) in *.
+    destruct (on_update_spec _ _ _ _ H) as (P1 & T1 & ps & Es & Ee).
+    assert (T0 : same_term s s0) by (repeat split).
+    assert (Hsame : forall x, esc_of s' x = esc_of s x).
+    { intro x. rewrite (esc_of_same s0 s' x T1). now apply esc_of_same. }
+    split.
+    + rewrite P1. cbn [s0 s_palette]. now apply puniq_pset.
+    + intro n. rewrite Ee, P1. cbn [s0 s_palette s_escape]. rewrite !plookup_pset.
+      destruct (attr_eqb name n) eqn:E.
+      * rewrite Hsame. rewrite <- Es. symmetry. now apply esc_of_same.
+      * rewrite Hc. destruct (plookup n (s_palette s)); [now rewrite Hsame | reflexivity].
   - unfold set_props in H.
     destruct ((colors =? s_colors s) && Bool.eqb bib (s_bib s) && Bool.eqb hasul (s_hasul s)).
     + inversion H; subst. now split.
@@ -122,16 +133,12 @@ Proof.
       symmetry. now apply esc_of_same.
 Qed.
 
-Definition no_alias (ops : list pop) : Prop := forallb (fun o => negb (is_alias o)) ops = true.
-
-Lemma prun_consistent ops : forall s, consistent s -> no_alias ops -> consistent (fst (prun s ops)).
+Lemma prun_consistent ops : forall s, consistent s -> consistent (fst (prun s ops)).
 Proof.
-  unfold no_alias. induction ops as [|o r IH]; intros s Hs Hn; [exact Hs|].
-  cbn [forallb] in Hn. apply andb_prop in Hn. destruct Hn as [Ho Hr].
+  induction ops as [|o r IH]; intros s Hs; [exact Hs|].
   cbn [prun]. destruct (pstep s o) as [s'|] eqn:E.
-  - specialize (IH s' (step_consistent _ _ _ Hs (proj1 (negb_true_iff _) Ho) E) Hr).
-    destruct (prun s' r). exact IH.
-  - specialize (IH s Hs Hr). destruct (prun s r). exact IH.
+  - specialize (IH s' (step_consistent _ _ _ Hs E)). destruct (prun s' r). exact IH.
+  - specialize (IH s Hs). destruct (prun s r). exact IH.
 Qed.
 
 Lemma init_consistent bib bbb : consistent (screen_init bib bbb).
